@@ -6,6 +6,7 @@ import (
 	"net"
 	"strings"
 	"sync"
+	"sync/atomic"
 	"time"
 
 	tally "github.com/uber-go/tally/v4"
@@ -398,6 +399,10 @@ func head(b []byte) []byte {
 // c15Multi: with no failing destination every destination sees the same
 // datagram sequence; Close is idempotent; use after Close is a not-open error.
 func c15Multi(c *mon.Ctx, r *mon.Rand) {
+	if atomic.LoadInt32(&c15MultiFound) >= 3 {
+		c.Class("multi-destination-runs-skipped-after-three-findings", 1) // the finding is recorded; further runs would only spend the batch's time waiting on sinks
+		return
+	}
 	c.Replayed(r, func(rr *mon.Rand) { c15MultiOnce(c, rr) })
 }
 
@@ -501,9 +506,12 @@ func c15MultiOnce(c *mon.Ctx, r *mon.Rand) {
 			}
 		}
 		want := wantHere
-		if !s.WaitFor(len(want), 10*time.Second) && s.Drops() != 0 {
-			c.Inconclusive("kernel dropped datagrams at the sink")
-			return
+		if !s.WaitFor(len(want), c15SinkPatience()) {
+			atomic.AddInt32(&c15Stalls, 1)
+			if s.Drops() != 0 {
+				c.Inconclusive("kernel dropped datagrams at the sink")
+				return
+			}
 		}
 		s.Settle(300 * time.Microsecond)
 		got := s.Datagrams()
@@ -512,6 +520,7 @@ func c15MultiOnce(c *mon.Ctx, r *mon.Rand) {
 			okSame = bytes.Equal(got[j], want[j])
 		}
 		if !okSame {
+			atomic.AddInt32(&c15MultiFound, 1)
 			c.Violation("multi-destination-differs", map[string]interface{}{"why": fmt.Sprintf("destination %d of %d received datagram lengths %v, written %v", i, n, lens(got), lens(want)), "case": desc})
 		}
 		c.Event("multi-destination-datagrams-compared", int64(len(got)))
@@ -934,3 +943,19 @@ func c15TwoWriters(c *mon.Ctx, r *mon.Rand) {
 		w.tr.Close()
 	}
 }
+
+// c15Stalls counts the times a sink did not receive what was flushed within
+// the full patience of ten seconds. Loopback delivery takes microseconds: once
+// two such stalls have been seen in this process something is wrong and later
+// comparisons wait two seconds only (a process that waits ten seconds per
+// destination and case never gets to report what it found).
+var c15Stalls int32
+
+func c15SinkPatience() time.Duration {
+	if atomic.LoadInt32(&c15Stalls) >= 2 {
+		return 2 * time.Second
+	}
+	return 10 * time.Second
+}
+
+var c15MultiFound int32 // multi-destination mismatches raised in this process (trial executions included)
